@@ -11,7 +11,7 @@ import (
 
 func init() {
 	register("C15", propMeta{
-		Explanation: "E-GUARD + E-LOCK x E-CHAN + E-PANIC on client/lib. O-1 capacity gate: in Collect the rendezvous (Tongue.Catch) is reachable only through the false edge of count >= max, with collectLock held continuously from the count to the insertion into activePeers, which has no other inserter; the hand-over channel's capacity is the maximum. O-2: Pop returns a peer only through the false edge of Closed() on that very peer. O-3 close-once: every close(ch) in client/lib is inside a sync.Once.Do closure or is a verified table row; O-3b no send can race with a close: for every channel that is both closed and sent on, one mutex is held at the close and at every send. O-4: while collectLock is held every channel operation is polling or is a select with a case on the melt channel (End needs the lock). O-5 shutdown reaches every loop: connectLoop blocks only in a select with a Melted() case that returns; Collect tests melt first under the lock; End closes melt before taking the lock and then closes every peer it holds; SnowflakeConn.Close reaches End, the packet conn, the session and the stream on all paths; the staleness loop selects on the peer's closed channel. O-6 a failed attempt cannot terminate the process: from Collect no reachable repository code contains an undischarged panic/Fatal/Exit/assertion, pointer results are used only behind their err == nil edge, and a field that a failing method may leave nil is not dereferenced before that method's error is tested. Each clause is a necessary condition: e.g. an unconditional send under collectLock makes Close hang once spare peers went stale. Added after the second seeding round: O-6d every construction of an event type whose String() calls Error() on a field without a nil test supplies a value that is non-nil at the construction site (fresh error, behind its != nil edge, or the argument of an error callback). The melt test and the hand-over select may live in helpers of Collect (boolean-helper summaries, entry locksets). Added after the third seeding round: the closed mark precedes the teardown steps in WebRTCPeer.Close; the rendezvous transport keeps ResponseHeaderTimeout (borrowed from C01); a vanished Count() use in the capacity test is a violation. Added after the fourth seeding round: every peer caught by Collect is inserted into activePeers or closed on every path; O-2b the data channel's OnClose callback reaches WebRTCPeer.Close; a close inside a function whose only call site is a Once.Do body counts as close-once. Added after the fifth seeding round: O-4b BrokerChannel.lock is not held across RendezvousMethod.Exchange; O-7/C20 goroutine bodies of the client write only state with a protection row (one connection's SOCKS arguments do not reach the next); Count() may be written out as purgeClosedPeers() plus activePeers.Len(). Added after the sixth seeding round and the mutation audit: O-1c purgeClosedPeers removes exactly the peers whose Closed() is true; O-6e every ICEServer built from the configuration has a URL list literal at least as long as the constant index the NAT probe reads; O-9 a failure return that comes after one that closes a resource closes it too (E-CLEANUP).",
+		Explanation: "E-GUARD + E-LOCK x E-CHAN + E-PANIC on client/lib. O-1 capacity gate: in Collect the rendezvous (Tongue.Catch) is reachable only through the false edge of count >= max, with collectLock held continuously from the count to the insertion into activePeers, which has no other inserter; the hand-over channel's capacity is the maximum. O-2: Pop returns a peer only through the false edge of Closed() on that very peer. O-3 close-once: every close(ch) in client/lib is inside a sync.Once.Do closure or is a verified table row; O-3b no send can race with a close: for every channel that is both closed and sent on, one mutex is held at the close and at every send. O-4: while collectLock is held every channel operation is polling or is a select with a case on the melt channel (End needs the lock). O-5 shutdown reaches every loop: connectLoop blocks only in a select with a Melted() case that returns; Collect tests melt first under the lock; End closes melt before taking the lock and then closes every peer it holds; SnowflakeConn.Close reaches End, the packet conn, the session and the stream on all paths; the staleness loop selects on the peer's closed channel. O-6 a failed attempt cannot terminate the process: from Collect no reachable repository code contains an undischarged panic/Fatal/Exit/assertion, pointer results are used only behind their err == nil edge, and a field that a failing method may leave nil is not dereferenced before that method's error is tested. Each clause is a necessary condition: e.g. an unconditional send under collectLock makes Close hang once spare peers went stale. Added after the second seeding round: O-6d every construction of an event type whose String() calls Error() on a field without a nil test supplies a value that is non-nil at the construction site (fresh error, behind its != nil edge, or the argument of an error callback). The melt test and the hand-over select may live in helpers of Collect (boolean-helper summaries, entry locksets). Added after the third seeding round: the closed mark precedes the teardown steps in WebRTCPeer.Close; the rendezvous transport keeps ResponseHeaderTimeout (borrowed from C01); a vanished Count() use in the capacity test is a violation. Added after the fourth seeding round: every peer caught by Collect is inserted into activePeers or closed on every path; O-2b the data channel's OnClose callback reaches WebRTCPeer.Close; a close inside a function whose only call site is a Once.Do body counts as close-once. Added after the fifth seeding round: O-4b BrokerChannel.lock is not held across RendezvousMethod.Exchange; O-7/C20 goroutine bodies of the client write only state with a protection row (one connection's SOCKS arguments do not reach the next); Count() may be written out as purgeClosedPeers() plus activePeers.Len(). Added after the sixth seeding round and the mutation audit: O-1c purgeClosedPeers removes exactly the peers whose Closed() is true; O-6e every ICEServer built from the configuration has a URL list literal at least as long as the constant index the NAT probe reads; O-9 a failure return that comes after one that closes a resource closes it too (E-CLEANUP). O-10/C20 lock pairing of client/lib; O-11 in functions of client/lib that return an error a failure branch does not run on into code that can still end in success.",
 		NotDecided:  "bounded time of Close, pion callback behaviour after Close, the TOCTOU between Closed() in Pop and first use, panics inside third-party code.",
 		Assumptions: []string{"pion fires OnOpen at most once per data channel (table row)", "crypto/rand failure is not a rendezvous failure (two panic rows)", "lock identity is (type, field)"},
 	}, runC15)
@@ -158,6 +158,13 @@ func runC15(c *Ctx) {
 		}
 	}
 
+	// a step that failed is not carried on with: in a function that reports errors, the branch for a non-nil error
+	// does not run on into code that can still end in success (a rendezvous that failed is not "negotiated")
+	c.checkErrorBranchesLeaveMode("O-11 a failed step is not carried on with", cl, true)
+	// a client mutex left locked blocks End (collectLock) or the next callback (C20's pairing rule)
+	c.prefix = "O-10/C20:"
+	c.checkLockPairing("O-2 lock pairing", cl)
+	c.prefix = ""
 	// ---------- O-9 a failed step releases what the earlier steps created ----------
 	c.checkCleanupOnErrorPaths("O-9 failure returns release what was created", cl)
 
